@@ -152,7 +152,7 @@ theorem slotOf_set (slots : List (Option Buffer)) (idx : Nat) (b : Buffer) (h : 
 
 
 section
-variable {ac : Bool} {ext : Ext} {a : Bool} {S : Schema}
+variable {ext : Ext} {a : Bool} {S : Schema}
 
 theorem RecInv.w_none_of_flushed {fields : List (String × Nat)} {o : Bytes}
     {w : Nat → Option (Value × Bytes)} {rs : RecordState} {s : SerState}
@@ -163,10 +163,10 @@ theorem RecInv.w_none_of_flushed {fields : List (String × Nat)} {o : Bytes}
   | none => rfl
   | some x => rw [hw] at this; simp at this
 
-theorem recordValue_inv (hS : SchemaOK ac S) {fields : List (String × Nat)} {o : Bytes}
+theorem recordValue_inv (hS : SchemaOK S) {fields : List (String × Nat)} {o : Bytes}
     {w : Nat → Option (Value × Bytes)} {rs : RecordState} {s : SerState}
     (hinv : RecInv S fields o w rs s) (hfl : Flushed rs) (idx : Nat) (hidx : rs.current ≤ idx)
-    (sv : SV) (hsv : SerSound ac ext a S sv) (rs' : RecordState) (s' : SerState)
+    (sv : SV) (hsv : SerSound ext a S sv) (rs' : RecordState) (s' : SerState)
     (hrun : recordValue S fields rs idx (fun node => ser ext a S node sv) s = (.ok rs', s')) :
     ∃ f fnode v e, fields[idx]? = some f ∧ S[f.2]? = some fnode ∧ w idx = none ∧
       denotes (denExtOf ext) S fnode sv v = true ∧
@@ -384,11 +384,11 @@ structure PresInv (ext : DenExt) (S : Schema) (fields : List (String × Nat))
     (f.1 ∈ done.map (·.1) ∨ isNullish S fnode v = true)
 
 section
-variable {ac : Bool} {ext : Ext} {a : Bool} {S : Schema}
+variable {ext : Ext} {a : Bool} {S : Schema}
 
-theorem serFields_record_sound (hS : SchemaOK ac S) (fields : List (String × Nat))
+theorem serFields_record_sound (hS : SchemaOK S) (fields : List (String × Nat))
     (hd : (fields.map (·.1)).Nodup) (o : Bytes) (flds : List (String × SV))
-    (hIH : ∀ p ∈ flds, SerSound ac ext a S p.2) :
+    (hIH : ∀ p ∈ flds, SerSound ext a S p.2) :
     ∀ done w rs s k' s', RecInv S fields o w rs s → Flushed rs →
     PresInv (denExtOf ext) S fields w done →
     serFields ext a S (.record fields rs) flds s = (.ok k', s') →
@@ -497,9 +497,9 @@ theorem recordEnd_succ (S : Schema) (fields : List (String × Nat)) (fuel : Nat)
 
 
 section
-variable {ac : Bool} {S : Schema}
+variable {S : Schema}
 
-theorem nullFill_sound (hS : SchemaOK ac S) (k : Nat) (s : SerState) (hs : Good s)
+theorem nullFill_sound (hS : SchemaOK S) (k : Nat) (s : SerState) (hs : Good s)
     (hok : (nullFill S k s).1 = .ok ()) :
     ∃ fnode v e, S[k]? = some fnode ∧ nullFill S k s = (.ok (), { s with out := s.out ++ e }) ∧
       Dec S fnode e v ∧ isNullish S fnode v = true := by
@@ -538,7 +538,7 @@ theorem nullFill_sound (hS : SchemaOK ac S) (k : Nat) (s : SerState) (hs : Good 
 end
 
 section
-variable {ac : Bool} {ext : DenExt} {S : Schema}
+variable {ext : DenExt} {S : Schema}
 
 theorem RecInv.advance {fields : List (String × Nat)} {o : Bytes}
     {w : Nat → Option (Value × Bytes)} {rs : RecordState} {s : SerState}
@@ -579,7 +579,7 @@ theorem RecInv.advance {fields : List (String × Nat)} {o : Bytes}
       · simp only [wUpdate, h, if_false] at hw'
         exact hinv.wit i v' e' hw' }
 
-theorem recordEnd_inv (hS : SchemaOK ac S) (fields : List (String × Nat)) (o : Bytes)
+theorem recordEnd_inv (hS : SchemaOK S) (fields : List (String × Nat)) (o : Bytes)
     (done : List (String × SV)) :
     ∀ fuel w rs s rs' s', RecInv S fields o w rs s → Flushed rs → PresInv ext S fields w done →
     recordEnd S fields fuel rs s = (.ok rs', s') →
@@ -817,11 +817,11 @@ theorem recordComplete_of_pres {fields : List (String × Nat)}
 end
 
 section
-variable {ac : Bool} {ext : Ext} {a : Bool} {S : Schema}
+variable {ext : Ext} {a : Bool} {S : Schema}
 
-theorem structCore_record_sound (hS : SchemaOK ac S) (nm : Name) (fields : List (String × Nat))
-    (hnok : NodeOK ac S (.record nm fields)) (L : Nat) (durLen : Option Nat)
-    (flds : List (String × SV)) (hIH : ∀ p ∈ flds, SerSound ac ext a S p.2)
+theorem structCore_record_sound (hS : SchemaOK S) (nm : Name) (fields : List (String × Nat))
+    (hnok : NodeOK S (.record nm fields)) (L : Nat) (durLen : Option Nat)
+    (flds : List (String × SV)) (hIH : ∀ p ∈ flds, SerSound ext a S p.2)
     (s : SerState) (hs : Good s)
     (hok : (structCore S (.record nm fields) L durLen
       (fun k s => serFields ext a S k flds s) s).1 = .ok ()) :
@@ -988,11 +988,11 @@ theorem structCore_run_ok {S : Schema} {n : Node} {L : Nat} {durLen : Option Nat
 
 
 section
-variable {ac : Bool} {ext : Ext} {a : Bool} {S : Schema}
+variable {ext : Ext} {a : Bool} {S : Schema}
 
-theorem structCoreF_sound (hS : SchemaOK ac S) (n : Node) (hnok : NodeOK ac S n)
+theorem structCoreF_sound (hS : SchemaOK S) (n : Node) (hnok : NodeOK S n)
     (L : Nat) (durLen : Option Nat) (flds : List (String × SV)) (hlen : flds.length < 2 ^ 63)
-    (hIH : ∀ p ∈ flds, (utf8 p.1).length < 2 ^ 63 ∧ SerSound ac ext a S p.2)
+    (hIH : ∀ p ∈ flds, (utf8 p.1).length < 2 ^ 63 ∧ SerSound ext a S p.2)
     (s : SerState) (hs : Good s)
     (hok : (structCore S n L durLen (fun k s => serFields ext a S k flds s) s).1 = .ok ()) :
     Res S n (structCore S n L durLen (fun k s => serFields ext a S k flds s)) s (fun v =>
@@ -1019,10 +1019,10 @@ theorem structCoreF_sound (hS : SchemaOK ac S) (n : Node) (hnok : NodeOK ac S n)
     simp [structAtNode, h1, h2]
   all_goals simp [structCore, structStartAt, bind, SerM.fail] at hok
 
-theorem structCoreE_sound (hS : SchemaOK ac S) (n : Node) (hnok : NodeOK ac S n)
-    (hstr : NodeOK ac S .string)
+theorem structCoreE_sound (hS : SchemaOK S) (n : Node) (hnok : NodeOK S n)
+    (hstr : NodeOK S .string)
     (L : Nat) (durLen : Option Nat) (entries : List (SV × SV)) (hlen : entries.length < 2 ^ 63)
-    (hIH : ∀ p ∈ entries, SerSound ac ext a S p.1 ∧ SerSound ac ext a S p.2)
+    (hIH : ∀ p ∈ entries, SerSound ext a S p.1 ∧ SerSound ext a S p.2)
     (s : SerState) (hs : Good s)
     (hok : (structCore S n L durLen (fun k s => serEntries ext a S k entries s) s).1 = .ok ()) :
     Res S n (structCore S n L durLen (fun k s => serEntries ext a S k entries s)) s (fun v =>
@@ -1055,7 +1055,7 @@ theorem structCoreE_sound (hS : SchemaOK ac S) (n : Node) (hnok : NodeOK ac S n)
       unfold Res
       rw [hcongr]
       simp only [hfields]
-      have hIHf : ∀ p ∈ fields, SerSound ac ext a S p.2 := fun p hp =>
+      have hIHf : ∀ p ∈ fields, SerSound ext a S p.2 := fun p hp =>
         (hIH _ (strKeys_mem hfields hp)).2
       rcases hrd with ⟨nm, fs, rfl⟩ | rfl
       · refine (structCore_record_sound hS nm fs hnok L durLen fields hIHf s hs hok).mono ?_
@@ -1073,8 +1073,8 @@ theorem structCoreE_sound (hS : SchemaOK ac S) (n : Node) (hnok : NodeOK ac S n)
 
 end
 
-theorem NodeOK.string {ac : Bool} {S : Schema} : NodeOK ac S .string :=
-  ⟨by simp [Node.children], rfl, rfl, rfl, rfl⟩
+theorem NodeOK.string {S : Schema} : NodeOK S .string :=
+  ⟨by simp [Node.children], rfl, rfl, rfl⟩
 
 theorem nameAgrees_none (S : Schema) (n : Node) (idx : Nat) : nameAgrees S n none idx = true := by
   cases n <;> rfl
@@ -1227,8 +1227,8 @@ theorem newtypeDen_of {node : Node} {name : String} {x : SV} {v : Value}
 
 end
 
-theorem svOKList_mem {ac : Bool} {elems : List SV} (h : svOKList ac elems = true) {e : SV}
-    (he : e ∈ elems) : svOK ac e = true := by
+theorem svOKList_mem {elems : List SV} (h : svOKList elems = true) {e : SV}
+    (he : e ∈ elems) : svOK e = true := by
   induction elems with
   | nil => simp at he
   | cons x rest ih =>
@@ -1238,8 +1238,8 @@ theorem svOKList_mem {ac : Bool} {elems : List SV} (h : svOKList ac elems = true
     · exact h.1
     · exact ih h.2 he
 
-theorem svOKFields_mem {ac : Bool} {fields : List (String × SV)} (h : svOKFields ac fields = true)
-    {p : String × SV} (hp : p ∈ fields) : (utf8 p.1).length < 2 ^ 63 ∧ svOK ac p.2 = true := by
+theorem svOKFields_mem {fields : List (String × SV)} (h : svOKFields fields = true)
+    {p : String × SV} (hp : p ∈ fields) : (utf8 p.1).length < 2 ^ 63 ∧ svOK p.2 = true := by
   induction fields with
   | nil => simp at hp
   | cons x rest ih =>
@@ -1250,8 +1250,8 @@ theorem svOKFields_mem {ac : Bool} {fields : List (String × SV)} (h : svOKField
     · exact ⟨h.1.1, h.1.2⟩
     · exact ih h.2 hp
 
-theorem svOKEntries_mem {ac : Bool} {entries : List (SV × SV)} (h : svOKEntries ac entries = true)
-    {p : SV × SV} (hp : p ∈ entries) : svOK ac p.1 = true ∧ svOK ac p.2 = true := by
+theorem svOKEntries_mem {entries : List (SV × SV)} (h : svOKEntries entries = true)
+    {p : SV × SV} (hp : p ∈ entries) : svOK p.1 = true ∧ svOK p.2 = true := by
   induction entries with
   | nil => simp at hp
   | cons x rest ih =>
@@ -1336,12 +1336,12 @@ theorem denotes_structVariant (nm : String) (idx : Nat) (variant : String)
 end
 
 section
-variable {ac : Bool} {ext : Ext} {a : Bool} {S : Schema}
+variable {ext : Ext} {a : Bool} {S : Schema}
 
 /-- sequence-like presentations without a variant name -/
-theorem seqLike_sound (hS : SchemaOK ac S) (len : Option Nat) (elems : List SV)
-    (hlen : elems.length < 2 ^ 63) (hIH : ∀ e ∈ elems, SerSound ac ext a S e)
-    (node : Node) (s : SerState) (hn : NodeOK ac S node) (hs : Good s)
+theorem seqLike_sound (hS : SchemaOK S) (len : Option Nat) (elems : List SV)
+    (hlen : elems.length < 2 ^ 63) (hIH : ∀ e ∈ elems, SerSound ext a S e)
+    (node : Node) (s : SerState) (hn : NodeOK S node) (hs : Good s)
     (hok : (seqBody ext a S node len elems s).1 = .ok ()) :
     Res S node (seqBody ext a S node len elems) s (fun v =>
       seqDispatch S node none v (fun item items => denotesList (denExtOf ext) S item elems items)
@@ -1349,8 +1349,8 @@ theorem seqLike_sound (hS : SchemaOK ac S) (len : Option Nat) (elems : List SV)
   (seqBody_sound hS node hn len elems hlen hIH s hs hok).mono fun _ h =>
     seqDispatch_of_viaUnion (fun _ _ _ => nameAgrees_none _ _ _) h
 
-theorem ser_sound_aux (hS : SchemaOK ac S) (hext : ExtOK ext) :
-    ∀ N sv, sizeOf sv ≤ N → svOK ac sv = true → SerSound ac ext a S sv := by
+theorem ser_sound_aux (hS : SchemaOK S) (hext : ExtOK ext) :
+    ∀ N sv, sizeOf sv ≤ N → svOK sv = true → SerSound ext a S sv := by
   intro N
   induction N with
   | zero =>
@@ -1384,9 +1384,8 @@ theorem ser_sound_aux (hS : SchemaOK ac S) (hext : ExtOK ext) :
       intro node s hn hs hok
       simp only [ser] at hok ⊢
       simp only [denotes_char]
-      have hac : ac = true := by simpa [svOK] using hsv
       exact Res.of_leaf hs (serStr_sound hS hn s hs.1 hext (.char c) (String.singleton c)
-        (Or.inr ⟨c, rfl, rfl, hac⟩) (utf8_singleton_length c) hok)
+        (Or.inr ⟨c, rfl, rfl⟩) (utf8_singleton_length c) hok)
     | str str =>
       intro node s hn hs hok
       simp only [ser] at hok ⊢
@@ -1446,7 +1445,7 @@ theorem ser_sound_aux (hS : SchemaOK ac S) (hext : ExtOK ext) :
     | seq len elems =>
       intro node s hn hs hok
       simp only [svOK, Bool.and_eq_true, decide_eq_true_eq] at hsv
-      have hIH : ∀ e ∈ elems, SerSound ac ext a S e := fun e he =>
+      have hIH : ∀ e ∈ elems, SerSound ext a S e := fun e he =>
         ih e (by have := List.sizeOf_lt_of_mem he; simp only [SV.seq.sizeOf_spec] at hsz; omega)
           (svOKList_mem hsv.2 he)
       have heq : ser ext a S node (.seq len elems) = seqBody ext a S node len elems := by
@@ -1457,7 +1456,7 @@ theorem ser_sound_aux (hS : SchemaOK ac S) (hext : ExtOK ext) :
     | tuple elems =>
       intro node s hn hs hok
       simp only [svOK, Bool.and_eq_true, decide_eq_true_eq] at hsv
-      have hIH : ∀ e ∈ elems, SerSound ac ext a S e := fun e he =>
+      have hIH : ∀ e ∈ elems, SerSound ext a S e := fun e he =>
         ih e (by have := List.sizeOf_lt_of_mem he; simp only [SV.tuple.sizeOf_spec] at hsz; omega)
           (svOKList_mem hsv.2 he)
       have heq : ser ext a S node (.tuple elems) = seqBody ext a S node (some elems.length) elems := by
@@ -1468,7 +1467,7 @@ theorem ser_sound_aux (hS : SchemaOK ac S) (hext : ExtOK ext) :
     | tupleStruct nm elems =>
       intro node s hn hs hok
       simp only [svOK, Bool.and_eq_true, decide_eq_true_eq] at hsv
-      have hIH : ∀ e ∈ elems, SerSound ac ext a S e := fun e he =>
+      have hIH : ∀ e ∈ elems, SerSound ext a S e := fun e he =>
         ih e (by have := List.sizeOf_lt_of_mem he; simp only [SV.tupleStruct.sizeOf_spec] at hsz; omega)
           (svOKList_mem hsv.2 he)
       have heq : ser ext a S node (.tupleStruct nm elems) =
@@ -1480,7 +1479,7 @@ theorem ser_sound_aux (hS : SchemaOK ac S) (hext : ExtOK ext) :
     | tupleVariant nm idx variant elems =>
       intro node s hn hs hok
       simp only [svOK, Bool.and_eq_true, decide_eq_true_eq] at hsv
-      have hIH : ∀ e ∈ elems, SerSound ac ext a S e := fun e he =>
+      have hIH : ∀ e ∈ elems, SerSound ext a S e := fun e he =>
         ih e (by have := List.sizeOf_lt_of_mem he; simp only [SV.tupleVariant.sizeOf_spec] at hsz; omega)
           (svOKList_mem hsv.2 he)
       have heq : ser ext a S node (.tupleVariant nm idx variant elems) =
@@ -1495,7 +1494,7 @@ theorem ser_sound_aux (hS : SchemaOK ac S) (hext : ExtOK ext) :
     | map len entries =>
       intro node s hn hs hok
       simp only [svOK, Bool.and_eq_true, decide_eq_true_eq] at hsv
-      have hIH : ∀ p ∈ entries, SerSound ac ext a S p.1 ∧ SerSound ac ext a S p.2 := fun p hp =>
+      have hIH : ∀ p ∈ entries, SerSound ext a S p.1 ∧ SerSound ext a S p.2 := fun p hp =>
         have hsz' := sizeOf_lt_of_mem_entries hp
         have hok' := svOKEntries_mem hsv.2 hp
         ⟨ih p.1 (by simp only [SV.map.sizeOf_spec] at hsz; omega) hok'.1,
@@ -1515,7 +1514,7 @@ theorem ser_sound_aux (hS : SchemaOK ac S) (hext : ExtOK ext) :
     | struct name fields =>
       intro node s hn hs hok
       simp only [svOK, Bool.and_eq_true, decide_eq_true_eq] at hsv
-      have hIH : ∀ p ∈ fields, (utf8 p.1).length < 2 ^ 63 ∧ SerSound ac ext a S p.2 := fun p hp =>
+      have hIH : ∀ p ∈ fields, (utf8 p.1).length < 2 ^ 63 ∧ SerSound ext a S p.2 := fun p hp =>
         have hsz' := sizeOf_lt_of_mem_fields hp
         have hok' := svOKFields_mem hsv.2 hp
         ⟨hok'.1, ih p.2 (by simp only [SV.struct.sizeOf_spec] at hsz; omega) hok'.2⟩
@@ -1535,7 +1534,7 @@ theorem ser_sound_aux (hS : SchemaOK ac S) (hext : ExtOK ext) :
     | structVariant nm idx variant fields =>
       intro node s hn hs hok
       simp only [svOK, Bool.and_eq_true, decide_eq_true_eq] at hsv
-      have hIH : ∀ p ∈ fields, (utf8 p.1).length < 2 ^ 63 ∧ SerSound ac ext a S p.2 := fun p hp =>
+      have hIH : ∀ p ∈ fields, (utf8 p.1).length < 2 ^ 63 ∧ SerSound ext a S p.2 := fun p hp =>
         have hsz' := sizeOf_lt_of_mem_fields hp
         have hok' := svOKFields_mem hsv.2 hp
         ⟨hok'.1, ih p.2 (by simp only [SV.structVariant.sizeOf_spec] at hsz; omega) hok'.2⟩
